@@ -679,3 +679,107 @@ def origin_deep(d, op, through=()):
             continue
         break
     return o
+
+
+def every_iteration_passes(fn, via_bbs):
+    """for each loop (back edges grouped by head) containing one of via_bbs: can an iteration go round (reach a back-edge
+    tail from the loop head, staying inside the loop) without passing any of them? Returns the (head, tail) pairs it can."""
+    out = []
+    via = set(via_bbs)
+    heads = {}
+    for tl, hd in fn.back_edges():
+        heads.setdefault(hd, []).append(tl)
+    for hd, tails in sorted(heads.items()):
+        body = set()
+        for tl in tails:
+            body |= fn.natural_loop(tl, hd)
+        if not (via & body) or hd in via:
+            continue
+        seen, st = {hd}, [hd]
+        while st:
+            x = st.pop()
+            for y in fn.succ(x):
+                if y in body and y not in seen and y not in via:
+                    seen.add(y)
+                    st.append(y)
+        for tl in tails:
+            if tl in seen and tl not in via:
+                out.append((hd, tl))
+    return out
+
+
+def fields_feeding(F, fn, d, op, adt_suffix, max_locals=400, use_bb=None):
+    """names of the fields of the struct `adt_suffix` that an operand is computed from (backward data dependence inside one
+    function; a closure built on the way contributes every field of that struct its body reads)."""
+    from .facts import op_place as _opl, callee as _callee
+    out = set()
+
+    def scan_place(pl):
+        for e in pl.get("p", []) or []:
+            if isinstance(e, dict) and (e.get("adt") or "").endswith(adt_suffix) and e.get("n"):
+                out.add(e["n"])
+
+    def scan_closure(path, depth=0):
+        cf = F.fns.get(path)
+        if cf is None or depth > 2:
+            return
+        for b, i, s in cf.stmts():
+            rv = s.get("rv") or {}
+            if "place" in rv:
+                scan_place(rv["place"])
+            for key in ("op", "a", "b"):
+                o = rv.get(key)
+                pl = _opl(o) if isinstance(o, dict) else None
+                if pl:
+                    scan_place(pl)
+            for o in rv.get("ops", []) or []:
+                pl = _opl(o) if isinstance(o, dict) else None
+                if pl:
+                    scan_place(pl)
+            if rv.get("k") == "agg" and rv.get("agg") == "closure":
+                scan_closure(rv["closure"], depth + 1)
+        for b, t in cf.calls():
+            for a in t["args"]:
+                pl = _opl(a)
+                if pl:
+                    scan_place(pl)
+    use_gates = {b for b, _ in edge_conditions(fn, [use_bb])} if use_bb is not None else set()
+    ctl_done = set()
+
+    def control(bb):
+        # a value assigned under a branch the use is not itself under depends on what that branch tests
+        if use_bb is None or bb in ctl_done:
+            return
+        ctl_done.add(bb)
+        for gb, _vals in edge_conditions(fn, [bb]):
+            if gb not in use_gates:
+                st.append(fn.term(gb)["op"])
+    seen, st = set(), [op]
+    while st and len(seen) < max_locals:
+        o = st.pop()
+        pl = _opl(o) if isinstance(o, dict) else None
+        if pl is None:
+            continue
+        scan_place(pl)
+        if pl["l"] in seen:
+            continue
+        seen.add(pl["l"])
+        for dd in d.defs.get(pl["l"], []):
+            control(dd[0])
+            if dd[2] == "call":
+                st.extend(dd[3]["args"])
+                c = _callee(dd[3])
+                # an accessor method of the struct (`imp.local_name()`) reads the fields on the caller's behalf
+                if c in F.fns and adt_suffix in c:
+                    scan_closure(c)
+            else:
+                rv = dd[3]["rv"]
+                for key in ("op", "a", "b"):
+                    if isinstance(rv.get(key), dict):
+                        st.append(rv[key])
+                if "place" in rv:
+                    st.append({"cp": rv["place"]})
+                st.extend(rv.get("ops", []) or [])
+                if rv.get("k") == "agg" and rv.get("agg") == "closure":
+                    scan_closure(rv["closure"])
+    return out
